@@ -89,6 +89,34 @@ def _is_diff(t, a, b):
     return t in (("+", tuple(sorted([("n", a), ("neg", ("n", b))], key=repr))), ("+", tuple(sorted([("n", b), ("neg", ("n", a))], key=repr))))
 
 
+def _strip_clamps(t):
+    """clip(x, lo, hi), max(x, 0), maximum(x, 0), min(x, 1), real(x) act as the identity wherever the documented formula is defined:
+    they only keep a rounding error from leaving the domain, so the closed form is compared without them"""
+    if not isinstance(t, tuple) or not t:
+        return t
+    if t[0] == "call" and t[1] in ("numpy.clip", "builtins.max", "builtins.min", "numpy.maximum", "numpy.minimum", "numpy.fmax", "numpy.fmin") and t[2]:
+        non_const = [x for x in t[2] if x[0] != "c"]
+        if len(non_const) == 1:
+            return _strip_clamps(non_const[0])
+    if t[0] == "real" and len(t) == 2:
+        # keep one outer real() (the documented formulas take the real part of the result); inner real parts of quantities that
+        # are real for density operators (traces of products of PSD operators) are the identity
+        return ("real", _strip_inner_real(_strip_clamps(t[1])))
+    return tuple(_strip_clamps(x) if isinstance(x, tuple) else x for x in t)
+
+
+def _strip_inner_real(t):
+    if not isinstance(t, tuple) or not t:
+        return t
+    if t[0] == "real" and len(t) == 2:
+        return _strip_inner_real(t[1])
+    out = tuple(_strip_inner_real(x) if isinstance(x, tuple) else x for x in t)
+    # re-sort commutative heads after the rewrite
+    if out and out[0] in ("+", "*") and isinstance(out[1], tuple):
+        return (out[0], tuple(sorted(out[1], key=repr))) + tuple(out[2:])
+    return out
+
+
 def formula(ctx, f, key, expected_pred, vocab, rule="R-PRED", skip=sdp_branch):
     """The returned closed form must satisfy expected_pred(term).  A different closed form over the same vocabulary of
     invariants is a violation; anything using constructs outside the vocabulary is unknown."""
@@ -98,7 +126,7 @@ def formula(ctx, f, key, expected_pred, vocab, rule="R-PRED", skip=sdp_branch):
     n = 0
     for rn, conds in ct.governed_returns(skip):
         n += 1
-        t = N(rn.value)
+        t = _strip_clamps(N(rn.value))
         if expected_pred(t):
             ctx.ob(rule, f, key, True, "matches the documented formula", rn)
             continue
@@ -128,6 +156,10 @@ def run(ctx):  # noqa: C901
     fid, td, hs, hsip, hh, bd, ba, sf, mf = (F(n) for n in ("fidelity", "trace_distance", "hilbert_schmidt", "hilbert_schmidt_inner_product",
                                                             "helstrom_holevo", "bures_distance", "bures_angle", "sub_fidelity", "matsumoto_fidelity"))
     tn = m.func("trace_norm.trace_norm")
+    from ..rules import r_domain_clamped
+    ctx.rule("R-GUARD", "square roots of differences and arccos arguments that reach the edge of their domain on identical / pure states are clamped (no nan at the extreme cases)")
+    for f in (bd, ba, sf, fid, hh, mf):
+        r_domain_clamped(ctx, f)
     for f, ps in ((fid, ("rho", "sigma")), (td, ("rho", "sigma")), (hs, ("rho", "sigma")), (hh, ("rho", "sigma")), (sf, ("rho", "sigma")), (mf, ("rho", "sigma"))):
         density_guard(ctx, f, ps)
         cov_check(ctx, f, ps)
